@@ -823,6 +823,15 @@ check_siblings(const struct lyd_node *first, const struct lyd_node *parent, int 
     if (first->prev != last) {
         return "first->prev != last";
     }
+    for (n = first; n; n = n->next) {
+        if (n->schema && n->next && (n->next->schema != n->schema)) {
+            for (const struct lyd_node *m = n->next->next; m; m = m->next) {
+                if (m->schema == n->schema) {
+                    return "instances of one schema node are not contiguous";
+                }
+            }
+        }
+    }
     if (parent && (lyd_child(parent) != first)) {
         return "parent->child";
     }
@@ -1026,7 +1035,15 @@ run_cmd(char **w, int nw, struct cmdres *r)
         }
         r->ectx = parent ? LYD_CTX(parent) : (mod ? mod->ctx : C[0]);
         if (!strcmp(c, "term")) {
+            const struct lysc_node *ks;
+
             NEED(7);
+            if (parent && parent->schema && (parent->schema->nodetype == LYS_LIST) && name &&
+                    (ks = lys_find_child(parent->schema, mod ? mod : parent->schema->module, name, 0, LYS_LEAF, 0)) &&
+                    (ks->flags & LYS_KEY)) {
+                /* a second key leaf in a list instance (see parsep) */
+                SKIP();
+            }
             opts = OPTS(w[5]) & ~(uint32_t)(LYD_NEW_VAL_BIN | LYD_NEW_VAL_CANON);
             r->rc = lyd_new_term(parent, mod, name, arg_str(w[4]), opts, &node);
         } else if (!strcmp(c, "inner")) {
@@ -1195,10 +1212,12 @@ run_cmd(char **w, int nw, struct cmdres *r)
         }
         if (!r->rc && nn && nn->schema && (nn->schema->nodetype & LYD_NODE_ANY) && v &&
                 (((struct lyd_node_any *)nn)->value.str == v)) {
-            /* the node holds the caller's buffer itself instead of a copy (the buffer is kept until the end of the case
-             * so that the tree can still be read) */
+            /* the node holds the caller's buffer itself instead of a copy. Reported; then the node is given a dictionary
+             * copy of its own (what its value type promises), otherwise freeing it would take a reference that belongs to
+             * someone else and later commands would run on a corrupted dictionary (use after free in unrelated calls) */
             sb_str(&r->flags, "ANYPTR!");
             arg_keep(v);
+            lydict_insert(LYD_CTX(nn), v, 0, &((struct lyd_node_any *)nn)->value.str);
         }
         if (!r->rc && !T[s] && np) {
             T[s] = top_first(np);
@@ -1481,6 +1500,9 @@ run_cmd(char **w, int nw, struct cmdres *r)
             /* lyd_merge_sibling_r() -> lyd_dup_inst_next() asserts on an opaque source node that is not in the target */
             SKIP();
         }
+        if (has_dup_inst(T[t]) || has_dup_inst(T[s])) {
+            SKIP();
+        }
         if (mixed_roots(T[t]) || mixed_roots(T[s])) {
             /* forests that mix top-level and unlinked nested nodes (the library checks the first node only) */
             SKIP();
@@ -1541,6 +1563,11 @@ run_cmd(char **w, int nw, struct cmdres *r)
 
         NEED(6);
         if (!(par = node_at(w[1], &s)) || !par->schema || !(par->schema->nodetype & LYD_NODE_INNER)) {
+            SKIP();
+        }
+        if (par->schema->nodetype == LYS_LIST) {
+            /* a parsed key would become a second key of the instance (only validation rejects it): the instance no
+             * longer matches its hash and its place in the sorting tree */
             SKIP();
         }
         for (struct lyd_node *ch = lyd_child(par); ch; ch = ch->next) {
@@ -1650,7 +1677,9 @@ run_cmd(char **w, int nw, struct cmdres *r)
         if ((t == f) || !T[f] || (T[t] && (LYD_CTX(T[t]) != LYD_CTX(T[f])))) {
             SKIP();
         }
-        if (mixed_roots(T[t]) || mixed_roots(T[f])) {
+        if (mixed_roots(T[t]) || mixed_roots(T[f]) || has_dup_inst(T[t]) || has_dup_inst(T[f])) {
+            /* data with two instances of a leaf / key / container or two equal list instances cannot be valid; the
+             * sorting tree of lists asserts on a second key instance */
             SKIP();
         }
         r->inv |= 1u << t;
